@@ -87,13 +87,15 @@ func genC17Doc(t *rapid.T) *c17Doc {
 		if len(k.purposes) == 0 {
 			k.purposes = []string{allowed[0]}
 		}
+		// the verification method id as a caller may spell it: the fragment alone, with '#', or as a DID URL
+		vmID := rapid.SampledFrom([]string{"", "", "#", "did:example:123#"}).Draw(t, "vmIDPrefix") + id
 		var vm *docdid.VerificationMethod
 		if k.asBytes {
 			x, _ := k.key.XY()
-			vm = docdid.NewVerificationMethodFromBytes(id, typ, "", x)
+			vm = docdid.NewVerificationMethodFromBytes(vmID, typ, "", x)
 		} else {
 			var err error
-			vm, err = docdid.NewVerificationMethodFromJWK(id, typ, "", &kmsjwk.JWK{JSONWebKey: gojose.JSONWebKey{Key: k.key.Public()}})
+			vm, err = docdid.NewVerificationMethodFromJWK(vmID, typ, "", &kmsjwk.JWK{JSONWebKey: gojose.JSONWebKey{Key: k.key.Public()}})
 			if err != nil {
 				t.Fatalf("harness: NewVerificationMethodFromJWK: %v", err)
 			}
@@ -393,6 +395,27 @@ func TestC17_LongForm(t *testing.T) {
 			st.Label("process-respelled")
 		}
 
+		// update and recovery keys are optional: without them Create makes its own, and the DID it returns resolves all the same
+		if rapid.IntRange(0, 3).Draw(t, "defaultKeys") == 0 {
+			var partial []vdrapi.DIDMethodOption
+			switch rapid.IntRange(0, 2).Draw(t, "whichDefault") {
+			case 1:
+				partial = opts[:1]
+			case 2:
+				partial = opts[1:]
+			}
+			rd, err := v.Create(d.doc, partial...)
+			if err != nil {
+				t.Fatalf("C17 VDR.Create without %d of its optional keys refused an acceptable document: %v", 2-len(partial), err)
+			}
+			if _, err := h.ResolveDocument(rd.DIDDocument.ID); err != nil {
+				t.Fatalf("C17 DID created with default keys does not resolve: %v", err)
+			}
+			if back, err := v.Read(rd.DIDDocument.ID); err != nil || back.DIDDocument.ID != rd.DIDDocument.ID || len(back.DIDDocument.VerificationMethod) != len(d.keys) {
+				t.Fatalf("C17 VDR.Read of a DID created with default keys: %v", err)
+			}
+			st.Label("default-keys")
+		}
 		// a result handed out stays what it was while the same handler and VDR resolve another DID
 		{
 			marker := docdid.Service{ID: "held", Type: "Other", ServiceEndpoint: endpoint.NewDIDCommV1Endpoint("https://held.example/" + suffix[:8])}
